@@ -18,6 +18,7 @@ from dst.storage import builder, images
 from dst.storage.simfile import Budget, IoSeam, ReadBudgetExceeded
 
 ID = "C08"
+MEM_LIMIT_GB = 3     # address-space limit of the processes executing runs (see run.py _Guarded)
 RUN_WALL_S = 90    # per-run wall-clock alarm for loops that perform no I/O (see core.guarded)
 LEVEL = "fault_enumeration"
 RUNS = {"quick": 700, "thorough": 25000}
@@ -237,6 +238,12 @@ def crafted_for(base):
                 ow(f"section{si}.SizeOfRawData={v:#x}", sect + 40 * si + 16, _u32(v))
                 ow(f"section{si}.VirtualSize={v:#x}", sect + 40 * si + 8, _u32(v))
                 ow(f"section{si}.VirtualAddress={v:#x}", sect + 40 * si + 12, _u32(v))
+        # every dword of the optional header (alignments, sizes, entry point, data directory count, ...) zeroed: fields that
+        # are harmless as long as they hold their usual value and become divisors / counts / offsets when used
+        for off in range(lay["pe.opt_hdr"], lay["pe.sections"] - 3, 4):
+            ow(f"optional_header+{off - lay['pe.opt_hdr']:#x}=0", off, _u32(0))
+        for off in range(lay["pe.opt_hdr"] + 32, min(lay["pe.opt_hdr"] + 44, lay["pe.sections"] - 3), 4):
+            ow(f"optional_header+{off - lay['pe.opt_hdr']:#x}=ffffffff", off, _u32(0xFFFFFFFF))
         # export directory RVA pointing at the very end of .rdata raw data at EOF: make .rdata the last thing in the file
         out.append(("export dir cut by EOF", {"kind": "truncate", "at": lay["pe.export_dir"] + 20, "stage": "plain"}))
     for i, blk in enumerate(base.get("blocks", [])):
